@@ -187,7 +187,7 @@ def run(R):
         R.floor("%s|send_command success paths" % cfg, nsucc, 1)
         # the loop iterates the `args` slice itself
         for lid, l in res.loops.items():
-            it = [v for k, v in l["entry_values"].items() if k.endswith("iter")]
+            it = [v for k, v in l["entry_values"].items() if k.split("~")[0].endswith("iter")]
             ok = bool(it) and isinstance(it[0], Agg) and "slice" in (it[0].name or "") and isinstance(it[0].fields[0], Ptr) and it[0].fields[0].root == ("O", "*args")
             R.ob("C07a-params-in-slice-order", "%s|send_command|loop-source" % cfg, ok,
                  "the parameter loop does not iterate the `args` slice front to back (iterator: %r)" % (it[:1],))
@@ -231,7 +231,7 @@ def run(R):
                      sample={"obligation": "%s %s" % (o.info.get("what"), o.info.get("op")), "operands": [o.info.get("a"), o.info.get("b")]})
             nfast = 0
             for lid, l in res.loops.items():
-                rng = [v for k, v in l["entry_values"].items() if k.endswith("iter")]
+                rng = [v for k, v in l["entry_values"].items() if k.split("~")[0].endswith("iter")]
                 conts = l["cont"]
                 words = [[s.cls + ":" + (s.recv or "") for s in TR.syms_of(TR.flatten_events(c["trace"], res.loops))] for c in conts]
                 if rng and isinstance(rng[0], Agg) and (rng[0].name or "").endswith("Range") and "send_repeated_pixel@" in lid:
